@@ -100,6 +100,7 @@ def run(prog, chk):
         "nested component transformations are composed as outer o inner with fontTools' Transform algebra on every path of _flattenComponent; no Transform is assembled from hand-computed components (R02.10)",
     ]
     chk.decided += ["components are only resolved into contours by util.decomposeCompositeGlyph; no other decomposing pen / component removal outside reviewed functions (R02.11, shared with C15)"]
+    chk.decided += ["per-run accumulators of the interpolatable filters are per master inside the loop over the glyph sets (R02.12, shared with C09)"]
     chk.not_decided += ["the cu2qu error bound itself", "point-for-point equality", "maxp counts (fontTools recalc)"]
     chk.guard(r021, prog, chk)
     chk.guard(r022, prog, chk)
@@ -111,6 +112,8 @@ def run(prog, chk):
     chk.guard(r0210, prog, chk)
     from .c15 import check_single_decomposer
     chk.guard(check_single_decomposer, prog, chk, "R02.11")
+    from .c09 import check_master_isolation
+    chk.guard(check_master_isolation, prog, chk, "R02.12")
 
 
 def _append_of(prog, fi, ctor_name):
